@@ -18,13 +18,13 @@ from .store import CaseResult  # noqa: F401  (re-exported)
 PROFILES = {
     # name: dict(pool size, size profile, ops per case, weights, second container prob, extras)
     'general': dict(pool=11, sizes='small', nops=(8, 30), weights=None, two=0.45, thresholds=0.25),
-    'roundtrip': dict(pool=9, sizes='small', nops=(6, 14), two=0.0,
+    'roundtrip': dict(pool=9, sizes='small', nops=(6, 14), two=0.0, thresholds=0.35,
                       weights={'addLoose': 30, 'addPacked': 30, 'packAll': 12, 'reopen': 3, 'loosen': 4, 'clean': 3}),
     'roundtrip_big': dict(pool=6, sizes='chunky', nops=(4, 9), two=0.0,
                           weights={'addLoose': 30, 'addPacked': 30, 'packAll': 12, 'reopen': 3, 'loosen': 6, 'repack': 5}),
     'dedup': dict(pool=6, sizes='tiny', nops=(10, 30), two=0.3, reuse=0.7,
                   weights={'damageReadd': 8, 'addLoose': 25, 'addPacked': 35, 'packAll': 10, 'clean': 5, 'import': 8, 'reopen': 2, 'loosen': 3}),
-    'compress': dict(pool=9, sizes='small', nops=(8, 24), two=0.0,
+    'compress': dict(pool=9, sizes='small', nops=(8, 24), two=0.0, thresholds=0.25,
                      weights={'addLoose': 20, 'addPacked': 14, 'packAll': 16, 'repack': 22, 'clean': 5, 'loosen': 3, 'delete': 3}),
     'compress_big': dict(pool=6, sizes='chunky', nops=(5, 10), two=0.0,
                          weights={'addLoose': 20, 'addPacked': 14, 'packAll': 16, 'repack': 22, 'clean': 5}),
